@@ -371,6 +371,9 @@ def corr_ts(ctx, drv, exe, nscen, seed, res):
         where = 'TimeStepper scenario %d (%s final=%s everyStep=%s limit=%s, handlers %s): ' % (a['id'], a['name'], a['final'], a['everyStep'], a['limit'], [int(h[2]) for h in a['hs']])
         if a['hs'] != b['hs'] or [t['time'] for t in a['targets']] != [t['time'] for t in b['targets']]:
             res['mismatch'].append(('ts', where + 'runs A and B differ in their scenario')); continue
+        # the property's own predicates on the implementation's runs: evaluated first, whatever the correspondence below says
+        # (a disagreement with the model ends the comparison of a scenario; the predicates are what hand over a failing input)
+        ts_predicates(a, b, ids, where, res)
         setup = ['TSRESET', 'CF %d' % res.get('cf', 0)] + [' '.join(h[:6 + int(h[5])]) for h in a['hs']] + ['IDS %d ' % len(ids) + ' '.join(str(i) for i in ids)]
         # cross-check the id assumption on the triggered ones
         info = a['info']; trig_ids = sorted(int(info[4 + 3 * j]) for j in range(int(info[1])))
@@ -447,7 +450,6 @@ def corr_ts(ctx, drv, exe, nscen, seed, res):
             n0 = len(res['mismatch']); cmp_log(blk, r['h'], ids, w, res, 'ts')
             if len(res['mismatch']) != n0: break
             res['n_ts_returns_B'] += 1
-        ts_predicates(a, b, ids, where, res)
 
 def ts_predicates(a, b, ids, where, res):
     """scheduled/periodic handlers exactly at their times, each due time served once and in order; all calls in time order per
